@@ -472,7 +472,9 @@ def run(facts, rep, tier):
         takes_json = any("serde_json::Value" in t or "serde_json::Map" in t for t in f.get("inputs", []))
         reads_rename = any(strip_refs(m["scrut"]).get("k") == "field" and strip_refs(m["scrut"])["name"] == "rename" and (c.ty(strip_refs(m["scrut"]).get("bty")) or "").replace("&", "").strip().endswith("StructProperty")
                            for m, _ in nodes(h["body"], "match") if m.get("src") == "normal") and any("TypeSpace" in t for t in f.get("inputs", [])) and "TokenStream" not in f.get("output", "") and not any("OutputSpace" in t for t in f.get("inputs", []))
-        if not (takes_json or reads_rename):
+        reads_rename_any = any(strip_refs(m["scrut"]).get("k") == "field" and strip_refs(m["scrut"])["name"] == "rename" and (c.ty(strip_refs(m["scrut"]).get("bty")) or "").replace("&", "").strip().endswith("StructProperty")
+                               for m, _ in nodes(h["body"], "match") if m.get("src") == "normal") and "TokenStream" not in f.get("output", "") and not any("OutputSpace" in t for t in f.get("inputs", []))
+        if not (takes_json or reads_rename or reads_rename_any):
             continue
         k_in_fn = 0
         for n, anc in walk(h["body"]):
@@ -491,7 +493,20 @@ def run(facts, rep, tier):
                        ("identifier use inside a formatting macro" if in_macro else "value of the `StructPropertyRename::None` arm") if ok else
                        "`%s` (the Rust identifier) is used outside `match rename { None => name, Rename(r) => r, .. }` in a function that takes a JSON default apart: a renamed property's member is not found under its JSON name, so its default is dropped or moved to the flattened member" % src(n), n.get("sp") or h.get("sp"))
                 k_in_fn += 1
-    rep.floor("C06.D5", "uses of StructProperty.name in fns that take a JSON value", n_uses, 5)
+    rep.floor("C06.D5", "uses of StructProperty.name in fns that take a JSON value", n_uses, 3)
+
+
+def init_holds(h, anc, init, call):
+    """the matched expression is the call, or a local bound to it"""
+    from lib import scope_binding
+    if contains_node(init, call):
+        return True
+    e = strip_refs(init)
+    if e.get("k") == "path" and e.get("res") == "local":
+        anc_of = {id(n): a for n, a in walk(h["body"])}
+        b = scope_binding(h, anc_of.get(id(e), ()), e["path"], e)
+        return bool(b and b[0] == "let" and b[1].get("init") is not None and contains_node(b[1]["init"], call))
+    return False
 
 
 def run_w2(facts, rep):
@@ -515,8 +530,8 @@ def run_w2(facts, rep):
                 continue  # not a schema default (e.g. enum values are validated, never rendered through default helpers)
             n_sites += 1
             ok = False
-            for a in anc:
-                if a.get("k") == "if" and a["cond"].get("k") == "letx" and contains_node(a["cond"]["init"], n) and "DefaultKind::Generic" in psrc(a["cond"]["pat"]):
+            for a, _a in nodes(h["body"], "if"):
+                if a["cond"].get("k") == "letx" and "DefaultKind::Generic" in psrc(a["cond"]["pat"]) and init_holds(h, anc, a["cond"]["init"], n):
                     binds = [b["name"] for b, _ in walk(a["cond"]["pat"]) if b.get("k") == "bind"]
                     for x, _ in walk(a["then"]):
                         if x.get("k") == "mcall" and x["name"] == "insert" and strip_refs(x["recv"]).get("k") == "field" and strip_refs(x["recv"])["name"] == "defaults":
